@@ -96,6 +96,15 @@ def closed_case(ctx, rng, idx):
     if isinstance(m, _Raised):
         ctx.check("C15:closed-form", False, f"C15:constructor-raised:{type(m.e).__name__}", lambda: wit(m))
         return
+    # The closed forms are differences of sums of products u*w*u (total minus diagonal terms): their rounding error is
+    # relative to the magnitude of the terms that cancel, not to the (possibly zero) result, so the absolute tolerance
+    # scales with S = (sum |u|)^2 * max |w|.
+    S_mag = float(np.abs(u0).sum()) ** 2 * float(np.abs(w0).max() if w0.size else 0.0)
+    AT = 1e-12 + 1e-13 * S_mag
+
+    def closeS(*a, **k):
+        return close(*a, at=AT, **k)
+
     E = all_hyperedges(N, D)
     L = np.array([lam(u0, w0, e) for e in E])
     kap = np.array([kappa(N, len(e)) for e in E])
@@ -109,7 +118,7 @@ def closed_case(ctx, rng, idx):
         if isinstance(r, _Raised):
             ctx.check("C15:closed-form", False, f"C15:poisson_params({name}):raised:{type(r.e).__name__}", lambda: wit(r))
         else:
-            close(ctx, "C15:closed-form", r, L[sub], "C15:poisson_params:differs-from-pair-sum", wit)
+            closeS(ctx, "C15:closed-form", r, L[sub], "C15:poisson_params:differs-from-pair-sum", wit)
     # ---- log_kappa ---------------------------------------------------------------------------
     for d in range(2, D + 1):
         r = call(m.log_kappa, d)
@@ -131,7 +140,7 @@ def closed_case(ctx, rng, idx):
         close(ctx, "C15:closed-form", r, sum(2 / (x * (x - 1)) for x in dv), "C15:C:differs-from-formula", lambda x=None: wit((d, x)))
         if pair_sum > 1e-9:
             tot = sum(L[j] / kap[j] for j, e in enumerate(E) if len(e) in dv)
-            close(ctx, "C15:closed-form", r * pair_sum, tot, "C15:C:not-the-ratio-of-total-rate-to-pair-sum", lambda x=None: wit((d, x)))
+            closeS(ctx, "C15:closed-form", r * pair_sum, tot, "C15:C:not-the-ratio-of-total-rate-to-pair-sum", lambda x=None: wit((d, x)))
     # ---- expected degrees ----------------------------------------------------------------------
     dim_choices = ["all", np.arange(2, D + 1)]
     if D >= 3:
@@ -148,12 +157,12 @@ def closed_case(ctx, rng, idx):
             mech = f"C15:expected_degree(per_node):raised:{type(r.e).__name__}" + (":N==2" if N == 2 else "")
             ctx.check("C15:closed-form", False, mech, lambda: wit((d, r)))
         else:
-            close(ctx, "C15:closed-form", r, ref, "C15:expected_degree(per_node):differs-from-sum-over-hyperedges", lambda x=None: wit((d, x)))
+            closeS(ctx, "C15:closed-form", r, ref, "C15:expected_degree(per_node):differs-from-sum-over-hyperedges", lambda x=None: wit((d, x)))
         r = call(m.expected_degree, per_node=False, d=d)
         if isinstance(r, _Raised):
             ctx.check("C15:closed-form", False, f"C15:expected_degree(average):raised:{type(r.e).__name__}", lambda: wit((d, r)))
         else:
-            close(ctx, "C15:closed-form", r, ref.mean(), "C15:expected_degree(average):differs", lambda x=None: wit((d, x)))
+            closeS(ctx, "C15:closed-form", r, ref.mean(), "C15:expected_degree(average):differs", lambda x=None: wit((d, x)))
     # ---- expected dimension sequence -------------------------------------------------------------
     for dy in (False, True):
         r = call(m.dimension_sequence, include_dyadic=dy, expected=True)
@@ -166,7 +175,7 @@ def closed_case(ctx, rng, idx):
         ctx.check("C15:closed-form", keys_ok, "C15:dimension_sequence:keys", lambda: wit((dict(r), ref)))
         if keys_ok and r:
             ks = sorted(int(k) for k in r)
-            close(ctx, "C15:closed-form", [float(r[k]) for k in ks], [ref[k] for k in ks], "C15:dimension_sequence:differs-from-sum-over-hyperedges", wit)
+            closeS(ctx, "C15:closed-form", [float(r[k]) for k in ks], [ref[k] for k in ks], "C15:dimension_sequence:differs-from-sum-over-hyperedges", wit)
         r = call(m.degree_sequence, include_dyadic=dy, expected=True)
         if not isinstance(r, _Raised) and (dy or D >= 3):
             refd = np.zeros(N)
@@ -174,7 +183,7 @@ def closed_case(ctx, rng, idx):
                 if len(e) in dims:
                     for i in e:
                         refd[i] += L[j] / kap[j]
-            close(ctx, "C15:closed-form", r, refd, "C15:degree_sequence(expected):differs", wit)
+            closeS(ctx, "C15:closed-form", r, refd, "C15:degree_sequence(expected):differs", wit)
         elif isinstance(r, _Raised) and N > 2 and (dy or D >= 3):
             ctx.check("C15:closed-form", False, f"C15:degree_sequence(expected):raised:{type(r.e).__name__}", lambda: wit(r))
     ctx.check("C15:closed-form", np.array_equal(u, u0) and np.array_equal(w, w0), "C15:closed-form-call-mutated-parameters", wit)
